@@ -334,10 +334,12 @@ pub fn run(ctx: &Ctx) {
 
     // the same lexical oracle for the streaming (buffered) reader: its scanners carry state across
     // refills, so a lexing bug may exist only there (schedules in depth are C02's business)
+    // four configurations here: text trimming of the streaming reader lives in the source (skip_whitespace)
+    let four = [NEUTRAL, DEFAULT, 127u8, NEUTRAL | TRIM_START | TRIM_END];
     for piece in [1usize, 2] {
         run.script = Some(Script::pieces(piece));
-        run.space(&raw(&format!("A.raw.buffered(piece={})", piece), SIGMA_M, t.pick(5, 6)), &two, false);
-        run.space(&atoms(&format!("C.atoms.buffered(piece={})", piece), ATOMS_C, t.pick(3, 4)), &two, false);
+        run.space(&raw(&format!("A.raw.buffered(piece={})", piece), SIGMA_M, t.pick(5, 6)), &four, false);
+        run.space(&atoms(&format!("C.atoms.buffered(piece={})", piece), ATOMS_C, t.pick(3, 4)), &four, false);
     }
     run.script = None;
 
